@@ -82,6 +82,9 @@ func c08CheckStr(w *mon.W, n int, s string) bool {
 			return false
 		}
 	}
+	if len(s) > 0 && s[0]&7 == 0 && !retainCheck(w, "FromStr", "bitword FromStr", func() uint64 { return gen.HashBytes(words) }) {
+		return false
+	}
 	w.Op = "ToStr"
 	if back := bw.ToStr(words); back != s {
 		w.Fail(fmt.Sprintf("ToStr(FromStr(s))/w=%d", n), mon.D{"width": n, "s": fmt.Sprintf("%q", s), "got": fmt.Sprintf("%q", back)})
